@@ -46,21 +46,39 @@ class SeedRS(SymRandomState):
         SeedRS.made.append(seed)
 
 
+def ratio_exp(x):
+    """exp of a difference of log densities as the quotient of the densities (LOG applications are cancelled), so that a
+    counterexample model fixes the acceptance ratio itself and replays in floats; anything else: the ordinary exp."""
+    ctx = core.cur()
+    if ctx.symbolic and isinstance(x, SymX):
+        try:
+            return ctx.exp_of(x)
+        except Exception:
+            return x.exp()
+    return _FACADE_EXP(x)
+
+
+_FACADE_EXP = NPFacade().exp
+
+
 def env(ctx):
     Global.log = []
     SeedRS.made = []
     g = Global()
     rnd = _Sub(np.random, {'RandomState': SeedRS, 'rand': g.__getattr__, 'randn': g.__getattr__})
-    fac = NPFacade(random=rnd)
+    fac = NPFacade(random=rnd, extra={'exp': ratio_exp})
     return patched([(mcmc, {'np': fac, 'float': __import__('symx.npfacade', fromlist=['x']).sym_float})])
 
 
 class Target:
     """Uninterpreted log-target: kind (0 finite / 1 -inf / 2 nan) and value."""
 
-    def __init__(self, ctx, dim, kinds=(0, 1, 2)):
+    def __init__(self, ctx, dim, kinds=(0, 1, 2), as_log_density=False):
         self.ctx, self.dim, self.kinds = ctx, dim, kinds
         self.evals = 0
+        # as_log_density: a finite value is LOG(DENS(x)) with DENS > 0 uninterpreted (the same set of targets: log is a
+        # bijection); acceptance ratios then are quotients of DENS values, which a counterexample model pins exactly
+        self.as_log_density = as_log_density
 
     def kind(self, x):
         ctx = self.ctx
@@ -80,6 +98,14 @@ class Target:
             return -INF
         if k == 2:
             return NAN
+        if self.as_log_density:
+            ctx = self.ctx
+            d = ctx.apply_uf('DENS', x)
+            if ctx.symbolic:
+                ctx._fact(d.t > 0)
+                return d.log()
+            import math
+            return math.log(abs(d) + (0.5 if d == 0 else 0))
         return self.ctx.apply_uf('LOGT', x)
 
     def grad(self, x):
@@ -89,7 +115,7 @@ class Target:
 
 
 def h_metropolis(ctx, dim, n_samples, warmups=(0, 1), start_dtype=None):
-    T = Target(ctx, dim)
+    T = Target(ctx, dim, as_log_density=True)
     if start_dtype is None:
         p0 = [ctx.real('p0_%d' % i) for i in range(dim)]
         start = ctx.array(p0)
@@ -128,7 +154,7 @@ def h_metropolis(ctx, dim, n_samples, warmups=(0, 1), start_dtype=None):
         if core._is_special(tp) or (not ctx.symbolic and not np.isfinite(tp)):
             acc = False
         else:
-            ratio = (tp - tcur).exp() if ctx.symbolic else float(np.exp(min(700.0, tp - tcur)))
+            ratio = ratio_exp(tp - tcur) if ctx.symbolic else float(np.exp(min(700.0, tp - tcur)))
             ctx.assume(Not(u == ratio))
             acc = bool(u < ratio)
         if acc:
